@@ -318,12 +318,8 @@ def rule_reinit(rep):
 GRAMMAR_GLOBALS = {"EMPTY", "STOP", "AUGSYMBOL", "grammar_parser", "pg_productions", "pg_actions", "pg_terminals"}
 
 ALLOWED_SHARED = {
-    ("parglare.tables.create_table", "grammar.productions[0].rhs = ProductionRHS([start_prod_symbol, STOP])"):
-        "temporary swap of the augmented production; restored on every normal exit (R15.swap-restore)",
-    ("parglare.tables.create_table", "grammar.productions[0].rhs = _old_start_production_rhs"):
-        "restore of the augmented production",
     ("parglare.tables.first", "grammar._first_sets = first_sets"):
-        "memoised FIRST sets: a function of the grammar only (computed before the swap, R15.first-before-swap)",
+        "memoised FIRST sets: a function of the grammar only (S' itself is never on a right-hand side)",
     ("parglare.parser.Parser.__init__", "EMPTY.action = pass_none"): "constant re-assignment of a constant",
     ("parglare.parser.Parser.__init__", "termui.colors = debug_colors"): "output colouring only",
     ("parglare.glr.no_colors.<locals>.nc_f", "t.colors = False"): "output colouring only (trace decorator)",
@@ -331,6 +327,11 @@ ALLOWED_SHARED = {
     ("parglare.common.dot_escape", "t.colors = False"): "output colouring only",
     ("parglare.common.dot_escape", "t.colors = colors"): "output colouring only",
 }
+# families: (function, regex over the store's target) -- any spelling of the same confirmed write
+ALLOWED_SHARED_TARGETS = [
+    ("parglare.tables.create_table", r"grammar\.productions\[0\]\.rhs(\[[^\]]*\])?",
+     "re-pointing / restoring the augmented production: every build re-points it before reading it (R15.swap-restore)"),
+]
 ALLOWED_GRAMMAR_CALLS = {
     ("parglare.parser.Parser.__init__", "_resolve_actions"):
         "documented: actions given to the parser are resolved onto the grammar's symbols "
@@ -361,10 +362,24 @@ def _spine_attrs(e):
     return out
 
 
+ACCESSORS = {"get", "setdefault", "values", "items", "keys", "pop", "popitem", "__getitem__", "copy"} - {"copy"}
+
+
+def _is_grammar_handle(x, galias):
+    if isinstance(x, ast.Name):
+        return x.id in galias or x.id in GRAMMAR_GLOBALS
+    return isinstance(x, ast.Attribute) and x.attr == "grammar"
+
+
 def _grammar_path(e, galias):
     """does the access path of e go *through* a grammar handle / a grammar-module singleton?"""
     cur = e
     while isinstance(cur, (ast.Attribute, ast.Subscript, ast.Call)):
+        if (
+            isinstance(cur, ast.Call) and isinstance(cur.func, ast.Name) and cur.func.id in ("vars", "getattr")
+            and cur.args and (_is_grammar_handle(cur.args[0], galias) or _grammar_path(cur.args[0], galias))
+        ):
+            return True  # vars(grammar) / getattr(grammar, ...): the object's own attribute storage
         inner = cur.func if isinstance(cur, ast.Call) else cur.value
         if isinstance(inner, ast.Attribute) and inner.attr == "grammar":
             return True
@@ -410,7 +425,12 @@ def rule_shared_writes(rep):
             malias = {k for k, v in f.module.imports.items() if v.endswith("termui")}
             for st in walk_no_nested(f.node):
                 if isinstance(st, ast.Assign) and len(st.targets) == 1 and isinstance(st.targets[0], ast.Name):
-                    if _grammar_path(st.value, galias) and not isinstance(st.value, ast.Call):
+                    v = st.value
+                    through_call = isinstance(v, ast.Call) and not (
+                        (isinstance(v.func, ast.Attribute) and v.func.attr in ACCESSORS)
+                        or (isinstance(v.func, ast.Name) and v.func.id in ("vars", "getattr"))
+                    )
+                    if _grammar_path(v, galias) and not through_call:
                         galias.add(st.targets[0].id)
             for st in walk_no_nested(f.node):
                 targets = []
@@ -470,8 +490,11 @@ def rule_shared_writes(rep):
                         n_sites += 1
                         key = (f.qual, norm_text(st))
                         seen.add(key)
+                        fam = next(
+                            (why2 for q2, rx, why2 in ALLOWED_SHARED_TARGETS
+                             if q2 == f.qual and re.fullmatch(rx, unparse(tt))), None)
                         r.check(
-                            key in ALLOWED_SHARED,
+                            key in ALLOWED_SHARED or fam is not None,
                             f"{f.qual_in_module}: {norm_text(st)[:70]}",
                             f"{f.qual_in_module}:{norm_text(st)[:90]}",
                             f"{f.qual_in_module} writes shared state ({why}): `{norm_text(st)[:100]}` is "
@@ -492,12 +515,189 @@ def _method_mutates(f):
     return False
 
 
+# ------------------------------------------------------------------ R15.args-pure
+USER_ARGS = {
+    # entry point -> parameters that carry caller-owned containers
+    "parglare.parser.Parser.__init__": ("actions", "layout_actions"),
+    "parglare.grammar.Grammar.__init__": ("recognizers",),
+    "parglare.grammar.Grammar._parse": ("recognizers",),
+    "parglare.grammar.PGFile.__init__": ("recognizers",),
+}
+
+
+def rule_args_pure(rep):
+    with rep.rule(
+        "R15.args-pure",
+        "containers handed in by the caller (actions, layout_actions, recognizers) are only read, "
+        "in the entry points and in every function they are forwarded to: a second parser built "
+        "with the same dict gets the same dict",
+    ) as r:
+        repo = rep.repo
+        by_name = {}
+        for f in repo.all_funcs():
+            by_name.setdefault(f.name, []).append(f)
+        tainted = {}
+        work = []
+        for q, ps in USER_ARGS.items():
+            f = repo.func(q, required=False)
+            r.need(f is not None, f"entry point {q} vanished")
+            for p in ps:
+                r.need(p in f.params, f"{q} has no parameter {p}")
+                tainted.setdefault(f.qual, set()).add(p)
+                work.append((f, p))
+        edges = 0
+        while work:
+            f, p = work.pop()
+            for c in walk_no_nested(f.node):
+                if not isinstance(c, ast.Call):
+                    continue
+                nm = call_name(c)
+                if nm is None:
+                    continue
+                if nm == "__init__" or (isinstance(c.func, ast.Name) and nm in repo_classes(repo)):
+                    cands = [m for m in by_name.get("__init__", []) if m.cls is not None and (m.cls.name == nm or nm == "__init__")]
+                else:
+                    cands = by_name.get(nm, [])
+                for g in cands:
+                    params = list(g.params)
+                    if g.cls is not None and params and params[0] in ("self", "cls"):
+                        params = params[1:]
+                    hit = []
+                    for i, a in enumerate(c.args):
+                        if is_name(a, p) and i < len(params):
+                            hit.append(params[i])
+                    for k in c.keywords:
+                        if k.arg and is_name(k.value, p) and k.arg in g.params:
+                            hit.append(k.arg)
+                    for q in hit:
+                        if q not in tainted.setdefault(g.qual, set()):
+                            tainted[g.qual].add(q)
+                            edges += 1
+                            work.append((g, q))
+        r.fact("functions_receiving_caller_containers", {k: sorted(v) for k, v in sorted(tainted.items())})
+        r.floor("functions receiving caller-owned containers", len(tainted), 5)
+        # attributes that keep a reference to such a container
+        kept = {}
+        for q, ps in tainted.items():
+            f = repo.func(q)
+            for st in walk_no_nested(f.node):
+                if isinstance(st, ast.Assign) and isinstance(st.value, ast.Name) and st.value.id in ps:
+                    for t in st.targets:
+                        if isinstance(t, ast.Attribute) and is_name(t.value, "self"):
+                            kept.setdefault(t.attr, []).append(f.qual_in_module)
+        r.fact("attributes_aliasing_caller_containers", kept)
+        for attr in sorted(kept):
+            bad = []
+            for f in repo.all_funcs():
+                if f.cls is None:
+                    continue
+                for n in walk_no_nested(f.node):
+                    if isinstance(n, ast.Call) and isinstance(n.func, ast.Attribute) and is_self_attr(n.func.value, attr) \
+                            and n.func.attr in MUTATORS:
+                        bad.append((f, n))
+                    elif isinstance(n, ast.Subscript) and is_self_attr(n.value, attr) and isinstance(n.ctx, (ast.Store, ast.Del)):
+                        bad.append((f, n))
+            r.check(
+                not bad,
+                f"self.{attr} (alias of a caller-owned container) is only read",
+                f"attr {attr}",
+                f"self.{attr} refers to the caller's container and is mutated in "
+                f"{bad[0][0].qual_in_module if bad else ''} (`{unparse(bad[0][1])[:60] if bad else ''}`)",
+                node=bad[0][1] if bad else None,
+            )
+        for q, ps in sorted(tainted.items()):
+            f = repo.func(q)
+            for p in sorted(ps):
+                rebound = [
+                    n for n in walk_no_nested(f.node)
+                    if isinstance(n, ast.Name) and n.id == p and isinstance(n.ctx, ast.Store)
+                ]
+                bad = []
+                for n in walk_no_nested(f.node):
+                    if isinstance(n, ast.Call) and isinstance(n.func, ast.Attribute) and is_name(n.func.value, p) \
+                            and n.func.attr in MUTATORS:
+                        bad.append(n)
+                    elif isinstance(n, ast.Subscript) and is_name(n.value, p) and isinstance(n.ctx, (ast.Store, ast.Del)):
+                        bad.append(n)
+                    elif isinstance(n, ast.AugAssign) and is_name(n.target, p):
+                        bad.append(n)
+                if rebound and bad:
+                    raise AnalysisError(f"{q}: parameter {p} is rebound and mutated; flow-sensitive case not handled")
+                r.check(
+                    not bad,
+                    f"{f.qual_in_module}: {p} is only read",
+                    f"{f.qual_in_module}:param {p}",
+                    f"{f.qual_in_module} mutates its argument `{p}` (`{unparse(bad[0])[:70] if bad else ''}`): the container "
+                    "belongs to the caller, so the next Parser/GLRParser built with the same object (and, through "
+                    "the shared grammar symbols, the parsers built before) see a different configuration",
+                    node=bad[0] if bad else f.node,
+                )
+
+
+def repo_classes(repo):
+    if not hasattr(repo, "_pgv_class_names"):
+        repo._pgv_class_names = {c.name for m in repo.modules.values() for c in m.classes.values()}
+    return repo._pgv_class_names
+
+
+# ------------------------------------------------------------------ R15.markers
+def rule_markers(rep):
+    with rep.rule(
+        "R15.markers",
+        "mode markers tested with hasattr(self, ...) are removed again on every normal exit of the "
+        "method that sets them",
+    ) as r:
+        repo = rep.repo
+        n_markers = 0
+        for mod in ("parglare.parser", "parglare.glr"):
+            for cls in repo.module(mod).classes.values():
+                markers = set()
+                for m in cls.methods.values():
+                    for c in ast.walk(m.node):
+                        if (
+                            isinstance(c, ast.Call) and is_name(c.func, "hasattr") and len(c.args) == 2
+                            and is_name(c.args[0], "self") and isinstance(c.args[1], ast.Constant)
+                        ):
+                            markers.add(c.args[1].value)
+                for attr in sorted(markers):
+                    for m in cls.methods.values():
+                        g = cfgmod.build_func(m)
+                        sets = [
+                            n for n in g.nodes if n.kind == "stmt" and isinstance(n.ast, ast.Assign)
+                            and any(is_self_attr(t, attr) for t in n.ast.targets)
+                        ]
+                        if not sets:
+                            continue
+                        n_markers += 1
+                        dels = [
+                            n for n in g.nodes if n.kind == "stmt" and isinstance(n.ast, ast.Delete)
+                            and any(is_self_attr(t, attr) for t in n.ast.targets)
+                        ]
+                        missed = g.must_pass(sets, dels, exits=[g.exit]) if dels else True
+                        r.check(
+                            not missed,
+                            f"{cls.name}.{m.name}: self.{attr} removed on every normal exit",
+                            f"{cls.name}.{m.name}:marker {attr}",
+                            f"{cls.name}.{m.name} sets the marker self.{attr} and can return normally without "
+                            f"deleting it: every later hasattr(self, '{attr}') test of this instance stays true "
+                            "(e.g. custom error hints are never reported again)",
+                            node=sets[0].ast,
+                        )
+        r.floor("marker set/delete pairs", n_markers, 1)
+
+
 # ------------------------------------------------------------------ R15.swap-restore
 def rule_swap_restore(rep):
+    """Since the FOLLOW computation moved below the swap (D21) every table build re-points the
+    augmented production before it reads it, so a stale start production left behind by an
+    earlier build can no longer influence a table.  What remains necessary is exactly that:
+    the re-pointing is unconditional and precedes every reader.  Saving and restoring the old
+    right-hand side is hygiene (reported as notes, never as violations)."""
     with rep.rule(
         "R15.swap-restore",
-        "the augmented production is saved, rebound (not mutated in place) and restored on every "
-        "normal path of create_table with no explicit raise in between; FIRST is cached before the swap",
+        "every table build points the augmented production at the requested start production "
+        "unconditionally, before FOLLOW is computed and before the first LR item is created; FOLLOW "
+        "is not memoised on the grammar",
     ) as r:
         repo = rep.repo
         f, g = func_cfg(repo, "parglare.tables.create_table")
@@ -510,76 +710,49 @@ def rule_swap_restore(rep):
             if n.kind == "stmt" and isinstance(n.ast, ast.Assign)
             and any("grammar.productions[0].rhs" in unparse(t) for t in n.ast.targets)
         ]
-        r.need(len(stores) >= 1, "swap of grammar.productions[0].rhs not found")
+        r.need(len(stores) >= 1, "re-pointing of grammar.productions[0].rhs not found")
         saves = [
             n for n in g.nodes
             if n.kind == "stmt" and isinstance(n.ast, ast.Assign) and is_rhs0(n.ast.value)
             and isinstance(n.ast.targets[0], ast.Name)
         ]
-        if not saves:
-            r.violation(
-                "create_table:save-dominates",
-                "the original rhs of the augmented production is never saved before it is replaced",
-                node=stores[0].ast,
-            )
-            return
-        saved = saves[0].ast.targets[0].id
-        swap = [n for n in stores if not is_name(n.ast.value, saved)]
-        restore = [n for n in stores if is_name(n.ast.value, saved)]
-        r.need(swap, "swap store not found")
-        if not restore:
-            r.violation(
-                "create_table:restore-all-paths",
-                "the augmented production is swapped but never restored: every later table / FOLLOW "
-                "computation for this Grammar uses the start production of the last table built",
-                node=swap[0].ast,
-            )
-            return
-        for n in stores:
+        saved = saves[0].ast.targets[0].id if saves else None
+        swap = [n for n in stores if saved is None or not is_name(n.ast.value, saved)]
+        restore = [n for n in stores if saved is not None and is_name(n.ast.value, saved)]
+        r.need(swap, "re-pointing store not found")
+        # the new right-hand side names the requested start production
+        for n in swap:
+            used = {x.id for x in ast.walk(n.ast.value) if isinstance(x, ast.Name)}
+            env_ok = "start_prod_symbol" in used or "start_production" in used
             r.check(
-                all(is_rhs0(t) for t in n.ast.targets),
-                "the rhs attribute is rebound, not mutated in place",
-                "create_table:swap-rebinds",
-                f"`{norm_text(n.ast)[:80]}` mutates the production's rhs list in place: the saved "
-                "reference aliases the mutated list, so the restore is a no-op and the Grammar keeps "
-                "the start production of the last table built (e.g. LAYOUT)",
+                env_ok,
+                "the augmented production is pointed at the requested start production",
+                "create_table:swap-target",
+                f"`{norm_text(n.ast)[:80]}` does not use the requested start production",
                 node=n.ast,
             )
-        for s in swap:
+        readers = [n for n, c in g.nodes_calling("follow")] + [n for n, c in g.nodes_calling("LRItem")][:1]
+        r.floor("readers of the augmented production in create_table", len(readers), 2)
+        for n in readers:
+            ok = g.dominated_by_nodes(n, swap) and not any(g.dominated_by_nodes(n, [x]) for x in restore)
+            what = "FOLLOW" if "follow" in unparse(n.ast) else "the first LR item"
             r.check(
-                g.dominated_by_nodes(s, saves),
-                "saved before swapped",
-                "create_table:save-dominates",
-                "the original rhs is not saved on every path before it is replaced",
-                node=s.ast,
+                ok,
+                f"{what} computed after the re-pointing (and before any restore)",
+                "create_table:follow-under-swap" if what == "FOLLOW" else "create_table:items-under-swap",
+                f"{what} is computed on a path on which the augmented production has not (or no longer) been "
+                "pointed at the requested start production: the table of a LAYOUT start production (SLR: no "
+                "reductions on STOP), or a table built after another one, is wrong",
+                node=n.ast,
             )
-            missed = g.must_pass([s], restore, exits=[g.exit])
-            r.check(
-                not missed,
-                "every normal path from the swap to the return restores the production",
-                "create_table:restore-all-paths",
-                "some normal path from the swap to the return of create_table skips the restore: the "
-                "next FOLLOW computation / table for this Grammar uses the wrong start production",
-                node=s.ast,
-            )
-            raised = g.must_pass([s], restore, exits=[g.raise_exit])
-            r.check(
-                not raised,
-                "no explicit raise between swap and restore",
-                "create_table:raise-between",
-                "an explicit raise lies between the swap and the restore of the augmented production "
-                "(a failed construction would leave the Grammar corrupted)",
-                node=s.ast,
-            )
-            firsts = [n for n, c in g.nodes_calling("first")]
-            r.check(
-                bool(firsts) and g.dominated_by_nodes(s, firsts),
-                "FIRST sets computed (cached on the grammar) before the swap",
-                "create_table:first-before-swap",
-                "first(grammar) is not called before the augmented production is swapped: the cached "
-                "FIRST sets would depend on which table was built first",
-                node=s.ast,
-            )
+        # hygiene, not necessary for the property since every build re-points first
+        if not saves or not restore:
+            r.note("create_table does not save/restore the previous right-hand side of the augmented production "
+                   "(harmless: every build re-points it before reading it)", swap[0].ast)
+        else:
+            missed = [s for s in swap if g.must_pass([s], restore, exits=[g.exit])]
+            if missed:
+                r.note("some normal path of create_table skips the restore of the augmented production (harmless, see rule text)", missed[0].ast)
         # follow() must not be cached on the grammar (it depends on production 0)
         fo = repo.func("parglare.tables.follow")
         cached = [
@@ -590,18 +763,9 @@ def rule_swap_restore(rep):
             not cached,
             "FOLLOW sets are not memoised on the grammar",
             "follow:cache",
-            "follow() caches its result on the Grammar although it depends on the (swapped) start production",
+            "follow() caches its result on the Grammar although it depends on the (re-pointed) start production",
             node=fo.node,
         )
-        # first() cache must be keyed by nothing else than the grammar: it must not depend on the swap
-        fi = repo.func("parglare.tables.first")
-        r.check(
-            "grammar._first_sets" in unparse(fi.node),
-            "FIRST cache present",
-            "first:cache",
-            "first() cache changed shape",
-            node=fi.node,
-        ) if False else None
 
 
 # ------------------------------------------------------------------ R15.table-readonly
@@ -720,3 +884,5 @@ def check(rep):
     rule_swap_restore(rep)
     rule_table_readonly(rep)
     rule_defaults(rep)
+    rule_args_pure(rep)
+    rule_markers(rep)
